@@ -951,3 +951,81 @@ def ext_re_escape(eng, args, kw, node):
 def ext_opaque_pattern_search(eng, args, kw, node):
     eng.used_assumptions.add("E-resub")
     return OptV(z3.Bool(eng.fresh_name("search.found")), Special("match", text=z3.Const(eng.fresh_name("match.text"), S), groups={}))
+
+
+# ---------------------------------------------------------------- the compiled secret regexes (opaque) and match objects
+ReGroupS = sort_of(Opq("ReGroup"))
+RePairS = sort_of(Opq("RePair"))
+PatS = sort_of(Opq("Pattern"))
+
+
+def _iter_regroup(eng, c, s):
+    """a group of related (compiled regex, index of the secret group) pairs"""
+    items = uf("regroup_items", ReGroupS, z3.SeqSort(RePairS))(c.term)
+    return z3.Length(items), (lambda k: P(Opq("RePair"), items[k]))
+
+
+R.iter_models["ReGroup"] = _iter_regroup
+
+
+@R.external("unpack.RePair")
+def _unpack_repair(eng, args, kw, node):
+    p = args[0].term
+    return [P(Opq("Pattern"), uf("repair_re", RePairS, PatS)(p)),
+            OptV(uf("repair_has_num", RePairS, B)(p), P(INT, uf("repair_num", RePairS, I)(p)))]
+
+
+@R.external("attr.Pattern.pattern")
+def _pattern_text(eng, args, kw, node):
+    return P(STR, uf("pattern_text", PatS, S)(args[0].term))
+
+
+@R.external("meth.match.groupdict")
+def _match_groupdict(eng, args, kw, node):
+    return Special("groupdict", match=args[0])
+
+
+_contains0 = lib.contains
+
+
+def _contains(eng, cont, item, node):
+    if isinstance(cont, Special) and cont.tag == "groupdict":
+        m = cont.match
+        key = item.v if isinstance(item, Conc) else None
+        if key is None:
+            raise Unsupported("symbolic group name")
+        if ("has", key) not in m.groups:
+            m.groups[("has", key)] = z3.Bool(eng.fresh_name("match.hasgroup"))
+        return m.groups[("has", key)]
+    return _contains0(eng, cont, item, node)
+
+
+lib.contains = _contains
+
+
+@R.external("meth.match.group")
+def match_group2(eng, args, kw, node):
+    """match.group(k).  E-regexgroups (ASSUMED): the `prefix` group and the secret group of netconan's line regexes
+    take part in every match, so group() returns a string (never None) for them."""
+    m = args[0]
+    g = args[1] if len(args) > 1 else Conc(0)
+    if isinstance(g, OptV):
+        g = g.val
+    if isinstance(g, Conc) and g.v == 0:
+        return P(STR, m.text)
+    eng.used_assumptions.add("E-regexgroups: the named group `prefix` and the secret group participate in every match")
+    key = g.v if isinstance(g, Conc) else ("sym", g.term.get_id())
+    if key not in m.groups:
+        m.groups[key] = P(STR, z3.Const(eng.fresh_name("match.group"), S))
+    return m.groups[key]
+
+
+@R.external("meth.Pattern.sub")
+def ext_opaque_pattern_sub2(eng, args, kw, node):
+    eng.used_assumptions.add("E-resub")
+    pat, repl, text = args[0], args[1], args[2]
+    if isinstance(repl, Fun):
+        return eng.resub_callable(None, repl, text, node, pattern_val=pat)
+    t = eng.term(repl, STR)
+    eng.safety("re.sub template has no backslash", z3.Not(z3.Contains(t, zstr("\\"))), node)
+    return P(STR, z3.Const(eng.fresh_name("resub"), S))
